@@ -15,10 +15,11 @@ variable {α K V : Type} (cmp : K → K → Ordering) (key : α → K)
 /-- the model is of the variant the source compiles -/
 theorem variant_is_234 : Generated.llrb234 = true := rfl
 
-/-- insertion (new key or replacement) into a valid tree never faults and gives a valid tree -/
-theorem put_preserves_llrb (new : α) (onDup : α → α) (t : T α) (h : LLRB t) :
-    ∃ t' added, put cmp key new onDup (size t + 1) t = .ok (t', added) ∧ LLRB (blacken t') :=
-  put_llrb cmp key new onDup t h
+/-- insertion (new key, replacement, or an insertion whose allocation failed: `mk = none`)
+    into a valid tree never faults and gives a valid tree -/
+theorem put_preserves_llrb (k : K) (mk : Option α) (onDup : α → α) (t : T α) (h : LLRB t) :
+    ∃ t' added, put cmp key k mk onDup (size t + 1) t = .ok (t', added) ∧ LLRB (blacken t') :=
+  put_llrb cmp key k mk onDup t h
 
 /-- the empty tree is valid -/
 theorem nil_llrb : LLRB (nil : T α) := ⟨0, Bal.nil⟩
